@@ -65,7 +65,17 @@ func c13BuildStream(r *gen.R, listener string, connIdx int, ups []string) (*c13C
 	// cut positions
 	n := len(stream)
 	cutSet := map[int]bool{}
-	switch r.Intn(6) {
+	switch r.Intn(7) {
+	case 5: // every frame is cut one or two octets before its end (and some right after the prefix)
+		off := 0
+		for off < n {
+			l := 2 + int(binary.BigEndian.Uint16(stream[off:]))
+			cutSet[off+l-r.Range(1, 2)] = true
+			if r.P(0.3) {
+				cutSet[off+2] = true
+			}
+			off += l
+		}
 	case 0: // one write
 	case 1: // 1-byte dribble over a prefix of the stream
 		lim := min(n, r.Range(3, 120))
